@@ -224,12 +224,17 @@ def inline_lambda(ip, st, f, pos, kws):
     saved_mod = ip.mod
     if getattr(f, "defmod", None) is not None:
         ip.mod = f.defmod
+    n_exc0 = len(ip._exc_out)
     try:
         for s3, v in ip.ev(f.node.body, s2):
             s3.env = dict(saved)
             outs.append((s3, v))
     finally:
         ip.mod = saved_mod
+    for s3, _exc in ip._exc_out[n_exc0:]:
+        # an exception that leaves the lambda: the state goes on (into a handler of the caller) in the CALLER's frame
+        if s3.env is env or (set(s3.env) == set(env) and all(s3.env[k] is env[k] for k in env)):
+            s3.env = dict(saved)
     return outs
 
 
@@ -857,6 +862,16 @@ def apply_contract(ip, st, c, args, kws):
         env = bind_contract_args(ip, st, case, args, kws)
     except Mismatch as m:
         raise U("call of %s: argument does not fit the contract: %s" % (c.name, m))
+    if case.ghost.get("bind_closure") and ip.c is not None and st.depth == 0 and c.qual.startswith(ip.c.qual + "."):
+        # Contract(ghost={"bind_closure": True}) of a nested def called from its ENCLOSING function: its free variables are
+        # the caller's own variables; they are bound (when they fit the declared closure type; else the call is refused) so
+        # that the callee's clauses may speak about them
+        for cn, cty in case.closure.items():
+            if cn not in env and cn in st.env:
+                try:
+                    env[cn] = conform_arg(ip, st, st.env[cn], cty, False)
+                except Mismatch as m:
+                    raise U("call of %s: free variable %s does not fit the declared closure type: %s" % (c.name, cn, m))
     if case.trusted:
         ip.assumptions.add("library contract (tier A): %s" % case.name)
     elst_callee = bool(case.ghost.get("elstate"))
@@ -973,6 +988,13 @@ def apply_contract(ip, st, c, args, kws):
         from .dicts import path_ref
         res, _root = path_ref(ip, st, env2, case.result_ref)
         env2["result"] = res
+    elif case.result is not None and case.result.strip() == "Bool" and case.ghost.get("result_def") \
+            and _result_def_text(case) is not None:
+        # opt-in Contract(ghost={"result_def": True}) of a predicate without effects whose (proved) postcondition is
+        # `result == <expression over the arguments>`: the call IS that term -- the same as a fresh symbol constrained by
+        # the clause (which is still assumed below, trivially), but the syntactic path pruning sees through it
+        res = Bool(eval_spec(ip, st, env2, _result_def_text(case), old=old))
+        env2["result"] = res
     elif case.result is not None:
         res = ip.make(case.result, "res_" + case.simple, st)
         env2["result"] = res
@@ -996,6 +1018,22 @@ def apply_contract(ip, st, c, args, kws):
         st.env["$elst"] = env2["$elst"]
     outs.append((st, res))
     return outs
+
+
+def _result_def_text(case):
+    """the expression E of the first postcondition of the exact form `result == E` (E does not mention `result`), else None"""
+    for cl in case.ensures:
+        if " implies " in cl:
+            continue
+        try:
+            node = ast.parse(cl.strip(), mode="eval").body
+        except SyntaxError:
+            continue
+        if isinstance(node, ast.Compare) and isinstance(node.left, ast.Name) and node.left.id == "result" \
+                and len(node.ops) == 1 and isinstance(node.ops[0], ast.Eq) \
+                and not any(isinstance(n, ast.Name) and n.id == "result" for n in ast.walk(node.comparators[0])):
+            return ast.unparse(node.comparators[0])
+    return None
 
 
 def bind_identity_clause(ip, st, case, env, text, old):
@@ -1146,6 +1184,9 @@ def do_havoc(ip, st, case, env):
             fields[field] = nv
             st.heap[base.cid] = ObjCell(cell.cls, fields)
         else:
+            # a callee that changes a dictionary in place may change it below the top level (update_recursively, ...)
+            from .dicts import refuse_nested_change
+            refuse_nested_change(st, base, "an in-place change by a callee (`modifies %s`)" % m)
             havoc_value(ip, st, base, "hv_" + m.replace(".", "_"))
 
 
